@@ -30,7 +30,7 @@ ANCHORS = [
 ]
 REQUIRED = ["exhaustive_sequences", "random_ops", "json_round_trips", "op:get_event", "op:get_current_events",
             "op:add_events_bulk", "op:constructor_events", "ties_seen", "sim_runs_monitored", "sim_json_round_trips",
-            "bulk_queues", "bulk_all_due_retrievals", "queue_monitor:get_current_events", "queue_monitor:add", "queue_monitor:get_last_timestamp", "suite:queue_monitor:get_event"]
+            "bulk_queues", "bulk_all_due_retrievals", "custom_precedence_round_trips", "queue_monitor:get_current_events", "queue_monitor:add", "queue_monitor:get_last_timestamp", "suite:queue_monitor:get_event"]
 BUDGET_S = {"quick": 240, "thorough": 3000}
 EXHAUSTIVE = {"quick": "all sequences of length <= 5 over the 13-operation alphabet, get_event on an empty queue excluded (count: monitor_events.exhaustive_sequences)",
               "thorough": "all sequences of length <= 6 over the 13-operation alphabet, get_event on an empty queue excluded (count: monitor_events.exhaustive_sequences)"}
@@ -58,6 +58,7 @@ def cases(seed, tier):
     nb = 24 if tier == "quick" else 600
     out += [{"kind": "bulk", "seed": rng.randrange(1 << 40), "n": rng.choice([128, 129, 200, 257, 400, 700]),
              "all_due": rng.random() < 0.6} for _ in range(nb)]
+    out += [{"kind": "custom", "seed": rng.randrange(1 << 40)} for _ in range(300 if tier == "quick" else 20000)]
     return out
 
 
@@ -399,7 +400,55 @@ def _run_bulk(case, obs):
     obs.sample = {"kind": "bulk", "events": n, "timestamps": nts, "all_due": case["all_due"]}
 
 
+def _run_custom(case, obs):
+    """Events whose `precedence` was set on the instance (a public attribute): the statement's class order does not apply to
+    them, but 'a queue restored from JSON behaves identically to the original' does — the restored queue must pop the same
+    (timestamp, precedence, kind, session) sequence as a deep copy of the original, and keep doing so after more insertions."""
+    import copy
+    c = ctx()
+    rng = random.Random(case["seed"])
+    q = c.EventQueue()
+    nts = rng.choice([1, 2, 4])
+    for _ in range(rng.randint(3, 14)):
+        e = c.make(rng.choice("UPRE"), rng.randrange(nts), rng.randrange(12))
+        if rng.random() < 0.5:
+            e.precedence = rng.choice([-1, 0.5, 1.5, 7, 20, -3.25])
+        q.add_event(e)
+    for _ in range(rng.randint(0, 2)):
+        if not q.empty():
+            q.get_event()
+    desc = lambda e: (e.timestamp, float(e.precedence), type(e).__name__, getattr(getattr(e, "ev", None), "session_id", None))
+    orig = copy.deepcopy(q)
+    rest = c.EventQueue.from_json(q.to_json())
+    obs.ev("custom_precedence_round_trips")
+    obs.ev("json_round_trips")
+    seq_o, seq_r = [], []
+    step = 0
+    while not orig.empty() or not rest.empty():
+        if orig.empty() != rest.empty() or len(orig) != len(rest) or orig.get_last_timestamp() != rest.get_last_timestamp():
+            obs.violate("restored_queue_differs", f"after {step} pops: original len {len(orig)}, restored len {len(rest)}", popped=seq_o[-4:])
+            return
+        a, b = desc(orig.get_event()), desc(rest.get_event())
+        seq_o.append(a)
+        seq_r.append(b)
+        if (a[0], a[1]) != (b[0], b[1]) or sorted(map(repr, seq_o)) != sorted(map(repr, seq_r)) and a[:2] != b[:2]:
+            obs.violate("restored_queue_differs", f"pop {step}: original returns {a}, restored returns {b}", original=seq_o[-5:], restored=seq_r[-5:])
+            return
+        step += 1
+        if rng.random() < 0.25:
+            e1 = c.make(rng.choice("UPR"), rng.randrange(nts + 1), rng.randrange(12))
+            e2 = copy.deepcopy(e1)
+            orig.add_event(e1)
+            rest.add_event(e2)
+    if sorted(map(repr, seq_o)) != sorted(map(repr, seq_r)):
+        obs.violate("restored_queue_differs", "restored queue returned a different multiset of events", original=seq_o[:8], restored=seq_r[:8])
+    obs.evals = max(1, step)
+    obs.sample = {"kind": "custom_precedence", "popped": seq_o[:6]}
+
+
 def run_case(case, obs):
+    if case["kind"] == "custom":
+        return _run_custom(case, obs)
     if case["kind"] == "bulk":
         return _run_bulk(case, obs)
     if case["kind"] == "sim":
